@@ -13,6 +13,7 @@ use super::{
 };
 use crate::{
     abe_policy::{AccessStructure, Right},
+    bytes::bounded_capacity,
     core::{MasterPublicKey, MasterSecretKey, UserSecretKey, XEnc, SHARED_SECRET_LENGTH},
     data_struct::{RevisionMap, RevisionVec},
     Error,
@@ -35,6 +36,11 @@ impl Serializable for TracingPublicKey {
 
     fn read(de: &mut Deserializer) -> Result<Self, Self::Error> {
         let n_pk = <usize>::try_from(de.read_leb128_u64()?)?;
+        if n_pk == 0 {
+            return Err(Error::ConversionFailed(
+                "a tracing public key holds at least one tracer".to_string(),
+            ));
+        }
         let mut tracers = LinkedList::new();
         for _ in 0..n_pk {
             let tracer = de.read()?;
@@ -115,7 +121,7 @@ impl Serializable for MasterPublicKey {
     fn read(de: &mut Deserializer) -> Result<Self, Self::Error> {
         let tpk = de.read::<TracingPublicKey>()?;
         let n_coordinates = <usize>::try_from(de.read_leb128_u64()?)?;
-        let mut coordinate_keys = HashMap::with_capacity(n_coordinates);
+        let mut coordinate_keys = HashMap::with_capacity(bounded_capacity(n_coordinates, de));
         for _ in 0..n_coordinates {
             let coordinate = de.read::<Right>()?;
             let pk = de.read::<RightPublicKey>()?;
@@ -166,6 +172,11 @@ impl Serializable for TracingSecretKey {
         let s = de.read()?;
 
         let n_tracers = <usize>::try_from(de.read_leb128_u64()?)?;
+        if n_tracers == 0 {
+            return Err(Error::ConversionFailed(
+                "a tracing secret key holds at least one tracer".to_string(),
+            ));
+        }
         let mut tracers = LinkedList::new();
         for _ in 0..n_tracers {
             let sk = de.read()?;
@@ -174,7 +185,7 @@ impl Serializable for TracingSecretKey {
         }
 
         let n_users = <usize>::try_from(de.read_leb128_u64()?)?;
-        let mut users = HashSet::with_capacity(n_users);
+        let mut users = HashSet::with_capacity(bounded_capacity(n_users, de));
         for _ in 0..n_users {
             let id = de.read()?;
             users.insert(id);
@@ -223,7 +234,7 @@ impl Serializable for MasterSecretKey {
     fn read(de: &mut Deserializer) -> Result<Self, Self::Error> {
         let tsk = de.read::<TracingSecretKey>()?;
         let n_coordinates = <usize>::try_from(de.read_leb128_u64()?)?;
-        let mut coordinate_keypairs = RevisionMap::with_capacity(n_coordinates);
+        let mut coordinate_keypairs = RevisionMap::with_capacity(bounded_capacity(n_coordinates, de));
         for _ in 0..n_coordinates {
             let coordinate = de.read()?;
             let n_keys = <usize>::try_from(de.read_leb128_u64()?)?;
@@ -273,6 +284,11 @@ impl Serializable for UserId {
 
     fn read(de: &mut Deserializer) -> Result<Self, Self::Error> {
         let length = <usize>::try_from(de.read_leb128_u64()?)?;
+        if length == 0 {
+            return Err(Error::ConversionFailed(
+                "a user ID holds at least one marker".to_string(),
+            ));
+        }
         let mut id = LinkedList::new();
         for _ in 0..length {
             let marker = de.read()?;
@@ -371,14 +387,14 @@ impl Serializable for UserSecretKey {
 
         let n_ps = usize::try_from(de.read_leb128_u64()?)?;
 
-        let mut ps = Vec::with_capacity(n_ps);
+        let mut ps = Vec::with_capacity(bounded_capacity(n_ps, de));
         for _ in 0..n_ps {
             let p = de.read()?;
             ps.push(p);
         }
 
         let n_coordinates = <usize>::try_from(de.read_leb128_u64()?)?;
-        let mut coordinate_keys = RevisionVec::with_capacity(n_coordinates);
+        let mut coordinate_keys = RevisionVec::with_capacity(bounded_capacity(n_coordinates, de));
         for _ in 0..n_coordinates {
             let coordinate = de.read()?;
             let n_keys = <usize>::try_from(de.read_leb128_u64()?)?;
@@ -492,7 +508,12 @@ impl Serializable for XEnc {
     fn read(de: &mut Deserializer) -> Result<Self, Self::Error> {
         let tag = de.read_array::<TAG_LENGTH>()?;
         let n_traps = <usize>::try_from(de.read_leb128_u64()?)?;
-        let mut traps = Vec::with_capacity(n_traps);
+        if n_traps == 0 {
+            return Err(Error::ConversionFailed(
+                "an encapsulation holds at least one trap".to_string(),
+            ));
+        }
+        let mut traps = Vec::with_capacity(bounded_capacity(n_traps, de));
         for _ in 0..n_traps {
             let trap = de.read()?;
             traps.push(trap);
